@@ -23,6 +23,14 @@ claim("C08", "exhaustive enumeration of the finite requirement/session/mode/stor
       "The finite part is exhaustive; strings are explored (hundreds per quick run, tens of thousands plus fuzzing in thorough).",
       TRUST + " net/url parsing is the arbiter of where a redir value 'returns to'.", engine="table+strings")
 
+WM = "world machine: rapid-generated configurations and op histories interpreted against a full application World; "
+claim("C01", "model-based property testing (rapid state-machine style op histories) with an independent credential-validity oracle",
+      WM + "after every request the browser's session user is diffed; a new identity must be justified by a credential that an independent recomputation "
+      "(bcrypt / sha512 / base64 from the standard libraries against the pre-request store, plus what the harness was shown: mailed tokens, issued cookies, provider answers) "
+      "finds valid for exactly that user; every other request must leave the identity untouched, and no request may touch another browser's session. "
+      "Secrets come from near-miss pools (other account's secret, stale, stored value replayed, mutated). Exploration: ~7k histories quick, ~200k thorough.",
+      TRUST + " Credential validity is recomputed from the pre-request store; a defect that corrupts stored credentials at issue time is the subject of C05/C06/C07/C12/C19, not of this check.")
+
 NOT_YET = "check not built yet in this round (claimed in DESIGN.md; will be claimed once its check is committed)"
 
 def main():
